@@ -9,7 +9,9 @@ N = treecorr.Node
 SCHEMAS = ['{}', '[]', '{"a": {}}', '{"a": []}', '[[]]', '[{}]', '{"a": [1, {"b": []}]}', 'null', 'true', '1.5', '"s"',
            '{"a": null}', '@t', '{"x": @t}', '[@t]', '@t | @u', '{"a": 1} // {allOf: "@t"}', '{\n "k": "v" // {optional: true}\n}',
            '{"e": 1 // {enum: [1, 2]}\n}', '{"o": 1 // {or: [{type: "integer"}, {type: "string"}]}\n}', '{} // {additionalProperties: "any"}',
-           '{"d": "2021-01-01" // {type: "date"}\n}', '{"@t": 1}', '{"n": {"m": {"l": []}}}']
+           '{"d": "2021-01-01" // {type: "date"}\n}', '{"@t": 1}', '{"n": {"m": {"l": []}}}',
+           # property names that are empty or odd, with scalar and container values
+           '{"": {"inner": 1}}', '{"": [1, 2]}', '{"": 1, "x": {"": {"": []}}}', '{" ": {"a": 1}, "0": [], "null": {}}']
 
 
 def shaped_docs(rng, n):
